@@ -119,6 +119,22 @@ func init() {
 					}
 				}
 				// names
+				// directories, symlinks, link targets and owner names that do not fit a plain ustar header
+				for _, e := range []model.Entry{
+					{Dst: "/opt/" + longName(120), Type: "dir"},
+					{Dst: "/usr/share/foo/donn\u00e9es", Type: "dir"},
+					{Src: "/opt/" + longName(138), Dst: "/usr/bin/longtarget", Type: "symlink"},
+					{Src: "/usr/bin/t", Dst: "/opt/" + longName(130), Type: "symlink"},
+					{Src: "/usr/share/donn\u00e9es/t", Dst: "/usr/bin/nonascii-target", Type: "symlink"},
+					{Src: "etc/app.conf", Dst: "/opt/owner31", Owner: strings.Repeat("o", 31), Group: strings.Repeat("g", 31)},
+					{Src: "etc/app.conf", Dst: "/opt/group-nonascii", Owner: "app", Group: "gr\u00fcppe"},
+					{Dst: "/opt/dir-owner31", Type: "dir", Owner: strings.Repeat("o", 31), Group: strings.Repeat("g", 31)},
+					{Src: "tree", Dst: "/opt/" + longName(110), Type: "tree"},
+				} {
+					if !yield(C04Case{Class: "long-meta", Format: f, Setting: Setting{Name: "default"}, List: []model.Entry{e}}) {
+						return
+					}
+				}
 				for _, n := range []int{99, 100, 101, 155, 156, 200, 255, 256, 260} {
 					e := model.Entry{Src: "etc/app.conf", Dst: "/opt/" + longName(n)}
 					if !yield(C04Case{Class: "long-name", Format: f, Setting: Setting{Name: "default"}, List: []model.Entry{e}}) {
